@@ -255,6 +255,12 @@ pub fn run(ctx: &mut Ctx) -> Result<(), Violation> {
         let pwl = f.below(64) as usize;
         cases.push(Case::Derive { password: Hex(f.bytes(pwl)), salt: Hex(f.bytes(saltlen)), ops: 1 + (i % 3) as u64, mem: 8192 + 1024 * (i % 57) + [0, 1, 512, 1023][i % 4], cfg_hash_len: [0usize, 32, 16, 33, 64, 128, 31][i % 7], cfg_salt_len: [0usize, 16, 8, 24, 64][i % 5] });
     }
+    // large pass counts at minimal memory (a narrowed pass counter wraps at 2^8 / 2^9 / 2^10)
+    for (i, t) in [255u64, 256, 257, 258, 511, 513, 1025].into_iter().enumerate() {
+        let mut f = Fill::new(seed, &format!("C13:derive-bigt:{i}"));
+        cases.push(Case::Derive { password: Hex(f.bytes(7)), salt: Hex(f.bytes(16)), ops: t, mem: 8192, cfg_hash_len: 0, cfg_salt_len: 0 });
+        cases.push(Case::DeriveFromParsed { password: Hex(f.bytes(7)), salt: Hex(f.bytes(16)), alg: 1 + (i % 2) as i32, ops: t, mem: 8192 });
+    }
     cases.push(Case::Presets);
     for i in 0..ctx.tier.pick(200usize, 4000) {
         let mut f = Fill::new(seed, &format!("C13:parsed:{i}"));
